@@ -20,6 +20,10 @@ def run(rep):
     rep.guard(f6, rep, w)
     rep.guard(f7, rep, w)
     rep.guard(f8, rep, w)
+    rep.guard(f9, rep, w)
+    import c17
+    rep.guard(c17.l4, rep, w)     # the site of an exception in flight is recorded in the fiber it is in flight in (ObjFiber.error_ip): kept VM-wide, a second fiber's error
+    rep.guard(c17.l10, rep, w, 'C09')   # ... overwrites or inherits it across a switch
     import c06
     rep.guard(c06.s5, rep, w)   # a yield / switch must not close the suspended fiber's upvalues (its slots stay live)
     rep.guard(c06.s6, rep, w)   # a finishing fiber closes the upvalues of its body frame before the frame goes
@@ -440,3 +444,21 @@ def f8(rep, w, prop='C09'):
                     'the stack height after the call depends on the argument\'s value' % (f.path, callee_name(t).rsplit('::', 1)[-1], extra or 'the top of the stack', bad_cond), f.loc(t.get('sp')))
     if n < 2:
         raise Broken(prop, 'floor', 'natives that switch fibers: %d' % n)
+
+
+def f9(rep, w, prop='C09'):
+    """"new" and "finished" are read off the same evidence, the fiber's frame list: a new fiber has its one frame standing at the
+    first instruction, a finished - or killed - fiber has no frame. Fiber.call asks is_new() first (to check the argument count
+    against the function's parameters) and only load_fiber refuses a finished fiber; an is_new() that looks at something reset_stack
+    also empties (the value stack) takes a fiber killed by an earlier error for a new one."""
+    import roles
+    import c08
+    r = rep.rule('F9', 'is_new() is decided from the frame list, like has_finished(): a fiber without frames is never new', floor=2)
+    FIB = 'yarel::object::ObjFiber'
+    frames = roles.resolve(w)['frames']
+    for nm in ('is_new', 'has_finished'):
+        g = w.require_fn(FIB + '::' + nm, prop)
+        rd, _ = c08.field_accesses(w, g, 0)
+        fields = sorted(n for (o, n) in rd if o == FIB)
+        r.check(frames in fields, 'ObjFiber::%s reads the frame list' % nm, 'ObjFiber::%s decides from %s without looking at the frame list: after an uncaught error (reset_stack empties '
+                'stack and frames alike) a dead fiber can pass for a new one, or the two predicates can both hold' % (nm, fields), g.loc())
